@@ -906,8 +906,15 @@ func (c *Client) q(m *spb.ModifyRequest) {
 	c.awaiting.RLock()
 	defer c.awaiting.RUnlock()
 
-	if !chIsClosed(c.sendExitCh) {
-		c.qs.modifyCh <- m
+	if chIsClosed(c.sendExitCh) {
+		return
+	}
+	// The modify channel is buffered, and only read by the sender goroutine. Do
+	// not block forever (holding the awaiting lock, which blocks AwaitConverged)
+	// if the sender exits whilst the buffer is full.
+	select {
+	case c.qs.modifyCh <- m:
+	case <-c.sendExitCh:
 	}
 }
 
